@@ -489,6 +489,19 @@ impl Ctx {
         if std::env::var("FJV_TRACE").is_ok() {
             eprintln!("  txend view#{} {} how={how} overlay={:?}", v.id, v.kind, v.overlay.iter().map(|(k,m)| (k, m.iter().map(|(a,b)| (show(a), b.as_ref().map(|x| show(x)))).collect::<Vec<_>>())).collect::<Vec<_>>());
         }
+        // commit probe: one seqno per transaction, and at the moment the committer releases the journal lock a
+        // fresh snapshot already shows the final write of every key of every keyspace
+        if how <= 6 && had_writes {
+            let mut expect = Vec::new();
+            for (ks, m) in &v.overlay {
+                if let Ok(h) = self.ex.handle(*ks) {
+                    for (k, val) in m {
+                        expect.push((h.clone(), k.clone(), val.clone()));
+                    }
+                }
+            }
+            hooks::commit_probe_begin(self.ex.db().clone(), expect);
+        }
         match v.obj {
             Obj::OptTx(tx) => match how {
                 0..=6 => {
@@ -537,6 +550,22 @@ impl Ctx {
                 }
             },
             _ => {}
+        }
+        let (drawn, unlocked, problems) = hooks::commit_probe_end();
+        if committed && had_writes {
+            self.stats.inc("tx.commit_probes");
+            if drawn > 1 || unlocked > 1 {
+                return Err(Deviation::new(
+                    "tx:commit-not-all-at-once",
+                    format!("{what}: the commit drew {drawn} sequence numbers and released the journal lock {unlocked} times (one batch per transaction expected)"),
+                ));
+            }
+            if let Some(p) = problems.first() {
+                return Err(Deviation::new("tx:commit-not-all-at-once", format!("{what}: {p}")));
+            }
+            if unlocked == 1 {
+                self.stats.inc("tx.commit_probe_snapshots");
+            }
         }
         if committed && had_writes {
             for (ks, m) in &v.overlay {
@@ -748,6 +777,7 @@ fn run_case(property: &str, seed: u64, idx: u64, thorough: bool) -> (Option<Devi
         Err(_) => Some(Deviation::new("panic", crate::take_panic())),
     };
     fjall::verif::set_journal_pos_scale(1);
+    let _ = hooks::commit_probe_end(); // an error path may have left the probe (and its database handle) armed
     let _ = catch_unwind(AssertUnwindSafe(|| {
         cx.views.clear();
         cx.single_ks.clear();
